@@ -1,5 +1,6 @@
 import BddVerif.Props.C13
 import BddVerif.Props.C13Count
+import BddVerif.Lemmas.AlgoEqUtilSpec
 #print axioms B.Props.C13.read_text_total
 #print axioms B.Props.C13.read_text_io_total
 #print axioms B.Props.C13.read_bytes_total
@@ -20,3 +21,8 @@ import BddVerif.Props.C13Count
 #print axioms B.Serial.dfs_total
 #print axioms B.Props.C13.from_nodes_count_agrees
 #print axioms B.Props.C13.validate_count_agrees
+#print axioms B.AlgoEqUtil.Bdd_from_nodes_spec
+#print axioms B.AlgoEqUtil.Bdd_from_nodes_total
+#print axioms B.AlgoEqUtil.Bdd_validate_spec
+#print axioms B.AlgoEqUtil.Bdd_validate_total
+#print axioms B.AlgoEqUtil.Bdd_validate_eq_model_driver
